@@ -3,7 +3,7 @@
 /repo's working tree in turn, the quick check of its property is run with the current harness, and
 /repo is restored. Prints one line per seed and a summary; exits 1 if a stored seed is no longer caught.
 
-usage: reseed.py [name-glob]      (default: all of seeded/C??-?)
+usage: reseed.py [name-glob ...]      (default: all of seeded/C??-?)
 Nothing is committed in /repo; do not run other checks against /repo meanwhile.
 """
 import fnmatch, glob, json, os, subprocess, sys, time
@@ -15,13 +15,13 @@ def run(cmd, cwd=None, timeout=3600):
     return p.returncode, p.stdout + p.stderr
 
 def main():
-    pat = sys.argv[1] if len(sys.argv) > 1 else 'C??-?'
+    pats = sys.argv[1:] or ['C??-?']
     rc, st = run(['git', '-C', '/repo', 'status', '--porcelain'])
     assert st.strip() == '', '/repo is not clean:\n' + st
-    lost, skipped, n = [], [], 0
+    lost, skipped, unsure, n = [], [], [], 0
     for d in sorted(glob.glob('/verif/seeded/C??-?')):
         name = os.path.basename(d)
-        if not fnmatch.fnmatch(name, pat):
+        if not any(fnmatch.fnmatch(name, pat) for pat in pats):
             continue
         meta = json.load(open(os.path.join(d, 'meta.json')))
         props = meta.get('caught_by') or [meta['property']]
@@ -41,6 +41,7 @@ def main():
                 if rc == 1 and 'VIOLATION property=' + p in o:
                     caught.append(p)
                 elif rc != 0:
+                    unsure.append(name)
                     print(name, p, 'exit', rc, o[-300:])
         finally:
             run(['git', '-C', '/repo', 'reset', '-q'])
@@ -48,12 +49,12 @@ def main():
             run(['git', '-C', '/repo', 'clean', '-fdq'])
         n += 1
         print(name, 'caught by', caught, flush=True)
-        if not caught:
+        if not caught and name not in unsure:
             lost.append(name)
     rc, st = run(['git', '-C', '/repo', 'status', '--porcelain'])
     assert st.strip() == '', st
-    print('%d seeds re-run, %d no longer caught %s, %d patches no longer apply %s' % (n, len(lost), lost, len(skipped), skipped))
-    return 1 if lost else 0
+    print('%d seeds re-run, %d no longer caught %s, %d inconclusive (check exited 2) %s, %d patches no longer apply %s' % (n, len(lost), lost, len(unsure), unsure, len(skipped), skipped))
+    return 1 if lost or unsure else 0
 
 if __name__ == '__main__':
     sys.exit(main())
